@@ -191,8 +191,9 @@ Definition verdict (c : case) : N :=
   | None => 4%N
   | Some sd =>
       if c02_guard (c_pkg c) (c_fuel c) sd then
-        if Pb c sd then (if agree c sd then 0%N else 1%N) else 2%N
-      else if agree c sd then 3%N else 1%N
+        if N.eqb (o_status (c_obs c)) 5 then 3%N
+        else if Pb c sd then (if agree c sd then 0%N else 1%N) else 2%N
+      else if N.eqb (o_status (c_obs c)) 3 || N.eqb (o_status (c_obs c)) 5 || agree c sd then 3%N else 1%N
   end.
 
 Fixpoint mismatches_from (i : N) (cs : list case) : list (N * N) :=
